@@ -45,45 +45,50 @@ Definition tainted_rhs (r : rhs) (T : tset) : bool :=
   | RUnknown => true
   end.
 
-(* result of analysing a statement: taint sets at normal exit, at `break`, at `continue`;
-   or the line of the offending write / unknown statement *)
-Inductive res := Ok (N B C : tset) | Bad (line : nat).
+(* result of analysing a statement: taint sets at normal exit, at `break`, at `continue`, and R: a set that
+   covers the store at EVERY point where the execution may be cut by a raise (needed for what persists on
+   `self` into later calls); or the line of the offending write / unknown statement *)
+Inductive res := Ok (N B C R : tset) | Bad (line : nat).
 
+(* iterate f until nothing new is added (or the fuel runs out; the result is re-checked by the caller) *)
 Fixpoint iter (k : nat) (f : tset -> tset) (T : tset) : tset :=
-  match k with O => T | S k' => iter k' f (f T) end.
+  match k with
+  | O => T
+  | S k' => let T' := f T in if forallb (fun n => existsb (String.eqb n) T) T' then T else iter k' f T'
+  end.
 
 Definition loop_fuel := 10%nat.
 
 Fixpoint analyse (s : stmt) (T : tset) : res :=
   match s with
-  | SSkip => Ok T [] []
+  | SSkip => Ok T [] [] T
   | SSeq a b =>
       match analyse a T with
-      | Ok Na Ba Ca =>
+      | Ok Na Ba Ca Ra =>
           match analyse b Na with
-          | Ok Nb Bb Cb => Ok Nb (union Ba Bb) (union Ca Cb)
+          | Ok Nb Bb Cb Rb => Ok Nb (union Ba Bb) (union Ca Cb) (union Ra Rb)
           | Bad l => Bad l
           end
       | Bad l => Bad l
       end
-  | SBind n r => Ok (if tainted_rhs r T then add n T else remove n T) [] []
-  | SWrite n l => if mem n T then Bad l else Ok T [] []
+  | SBind n r => Ok (if tainted_rhs r T then add n T else remove n T) [] [] T
+  | SWrite n l => if mem n T then Bad l else Ok T [] [] T
   | SIf a b =>
       match analyse a T, analyse b T with
-      | Ok Na Ba Ca, Ok Nb Bb Cb => Ok (union Na Nb) (union Ba Bb) (union Ca Cb)
+      | Ok Na Ba Ca Ra, Ok Nb Bb Cb Rb => Ok (union Na Nb) (union Ba Bb) (union Ca Cb) (union Ra Rb)
       | Bad l, _ => Bad l
       | _, Bad l => Bad l
       end
   | SLoop body =>
-      let step := fun I => match analyse body I with Ok N _ C => union I (union N C) | Bad _ => I end in
+      let step := fun I => match analyse body I with Ok N _ C _ => union I (union N C) | Bad _ => I end in
       let inv := iter loop_fuel step T in
       match analyse body inv with
-      | Ok N B C => if subset T inv && subset N inv && subset C inv then Ok (union inv B) [] []
-                    else Bad 0   (* no invariant found within the fuel: fail closed *)
+      | Ok N B C R => if subset T inv && subset N inv && subset C inv then Ok (union inv B) [] [] (union inv R)
+                      else Bad 0   (* no invariant found within the fuel: fail closed *)
       | Bad l => Bad l
       end
-  | SBreak => Ok [] T []
-  | SContinue => Ok [] [] T
+  | SBreak => Ok [] T [] T
+  | SContinue => Ok [] [] T T
   | SUnknown l => Bad l
   end.
 
@@ -91,12 +96,12 @@ Fixpoint analyse (s : stmt) (T : tset) : res :=
 Record body := { b_name : string; b_tainted : list name; b_code : stmt }.
 
 Definition body_ok (b : body) : bool :=
-  match analyse (b_code b) (b_tainted b) with Ok _ _ _ => true | Bad _ => false end.
+  match analyse (b_code b) (b_tainted b) with Ok _ _ _ _ => true | Bad _ => false end.
 Definition writes_ok (bs : list body) : bool := forallb body_ok bs.
 
 (* diagnostics for the harness: (body name, offending line) of every rejected body *)
 Definition failures (bs : list body) : list (string * nat) :=
-  flat_map (fun b => match analyse (b_code b) (b_tainted b) with Ok _ _ _ => [] | Bad l => [(b_name b, l)] end) bs.
+  flat_map (fun b => match analyse (b_code b) (b_tainted b) with Ok _ _ _ _ => [] | Bad l => [(b_name b, l)] end) bs.
 
 (* syntactic helpers for table facts: does a body mention a name at all; the roots of its write sites *)
 Definition rhs_mentions (n : name) (r : rhs) : bool :=
@@ -124,6 +129,18 @@ Fixpoint write_roots (s : stmt) : list name :=
 Definition attr_guarded (n : name) (b : body) : bool :=
   implb (mentions n (b_code b)) (mem n (b_tainted b)) && negb (mem n (write_roots (b_code b))).
 
+(* names that live on the object between calls *)
+Definition persistent (n : name) : bool := String.prefix "self." n.
+(* a body is persistence-safe w.r.t. a list of possibly-caller-owned persistent names when it treats all of them
+   that it mentions as caller-owned on entry and, at every exit AND every point where it may be cut by a raise, no other
+   persistent name may denote a caller-owned buffer *)
+Definition persist_ok (caller_names : list name) (b : body) : bool :=
+  forallb (fun n => implb (mentions n (b_code b)) (mem n (b_tainted b))) caller_names &&
+  match analyse (b_code b) (b_tainted b) with
+  | Ok N B C R => forallb (fun n => negb (persistent n) || mem n caller_names) (N ++ B ++ C ++ R)
+  | Bad _ => false
+  end.
+
 (* ---------------------------------------------------------------- concrete semantics *)
 Section Sem.
   Variable V : Type.                       (* what a write stores (bytes, a dict entry, ...) *)
@@ -148,12 +165,13 @@ Section Sem.
     | RUnknown => True
     end.
 
-  Inductive outcome := Norm (st : store) | Brk (st : store) | Cont (st : store) | Raised.
+  Inductive outcome := Norm (st : store) | Brk (st : store) | Cont (st : store) | Raised (st : store).
 
   (* exec s st trace outcome: trace is the sequence of (buffer, value) writes performed.
-     X_Raise may fire at every statement: a raise (or return) truncates the execution anywhere. *)
+     X_Raise may fire at every statement: a raise (or return) truncates the execution anywhere; the
+     outcome keeps the store at that point (attributes of `self` persist into later calls). *)
   Inductive exec : stmt -> store -> list (nat * V) -> outcome -> Prop :=
-  | X_Raise : forall s st, exec s st [] Raised
+  | X_Raise : forall s st, exec s st [] (Raised st)
   | X_Skip : forall st, exec SSkip st [] (Norm st)
   | X_Bind : forall n r (st : store) (S : nat -> Prop), rhs_sem r st S -> exec (SBind n r) st [] (Norm (upd st n S))
   | X_Write : forall n l (st : store) b (v : V), st n b -> exec (SWrite n l) st [(b, v)] (Norm st)
@@ -161,7 +179,7 @@ Section Sem.
       exec a st t1 (Norm st1) -> exec b st1 t2 o -> exec (SSeq a b) st (t1 ++ t2) o
   | X_SeqBrk : forall a b st t st1, exec a st t (Brk st1) -> exec (SSeq a b) st t (Brk st1)
   | X_SeqCont : forall a b st t st1, exec a st t (Cont st1) -> exec (SSeq a b) st t (Cont st1)
-  | X_SeqRaise : forall a b st t, exec a st t Raised -> exec (SSeq a b) st t Raised
+  | X_SeqRaise : forall a b st t st1, exec a st t (Raised st1) -> exec (SSeq a b) st t (Raised st1)
   | X_IfL : forall a b st t o, exec a st t o -> exec (SIf a b) st t o
   | X_IfR : forall a b st t o, exec b st t o -> exec (SIf a b) st t o
   | X_Break : forall st, exec SBreak st [] (Brk st)
@@ -172,7 +190,7 @@ Section Sem.
   | X_LoopCont : forall body st t1 st1 t2 o,
       exec body st t1 (Cont st1) -> exec (SLoop body) st1 t2 o -> exec (SLoop body) st (t1 ++ t2) o
   | X_LoopBrk : forall body st t st1, exec body st t (Brk st1) -> exec (SLoop body) st t (Norm st1)
-  | X_LoopRaise : forall body st t, exec body st t Raised -> exec (SLoop body) st t Raised.
+  | X_LoopRaise : forall body st t st1, exec body st t (Raised st1) -> exec (SLoop body) st t (Raised st1).
 
   (* memory: one value per buffer; a write replaces it *)
   Definition heap := nat -> V.
@@ -180,7 +198,9 @@ Section Sem.
     fun b => if Nat.eqb b (fst w) then snd w else h b.
   Definition run (h : heap) (t : list (nat * V)) : heap := fold_left write t h.
 
-  (* the abstraction relation: every name that may denote a caller-owned buffer is in T *)
-  Definition covers (st : store) (T : tset) : Prop :=
-    forall n b, st n b -> own b = User -> mem n T = true.
+  (* the abstraction relation: every RELEVANT name (M) that may denote a caller-owned buffer is in T.
+     M is the set of names a body mentions: names it never mentions are neither read nor changed by it *)
+  Definition covers_on (M : name -> bool) (st : store) (T : tset) : Prop :=
+    forall n b, M n = true -> st n b -> own b = User -> mem n T = true.
+  Definition covers (st : store) (T : tset) : Prop := covers_on (fun _ => true) st T.
 End Sem.
